@@ -188,6 +188,11 @@ func genC03(rng *rand.Rand) SrvCase {
 }
 
 func checkC03(r *Result, rng *rand.Rand, thorough bool) {
+	traces, doneTraces := collectTraces(200)
+	defer func() {
+		doneTraces()
+		compareSrv(r, "srv", *traces)
+	}()
 	ncases := 1500
 	if thorough {
 		ncases = 10000
